@@ -8,8 +8,13 @@ that derives from BaseException only.  A share of the callbacks (knob) is
 re-entrant: before behaving, the callback itself issues 1..2 of the program's
 operations - pause / unpause of any Deferred of the pool (its own included),
 fire of a Deferred that has not fired yet, add of a callback to any Deferred
-(its own included).  Every
-user callback is a recording closure.  Oracle: models/deferred.py, a recursive
+(its own included).  A share of the registrations (knob) carries extra
+arguments for the callable, per side of the pair: addCallback/addErrback/addBoth(f, *a, **kw) and the
+callbackArgs/callbackKeywords/errbackArgs/errbackKeywords of addCallbacks (spelled by keyword, by position,
+only the non-empty ones, or None for the empty ones), values from a two-letter alphabet so that the two sides
+agree in part and differ in part; addCallbacks is also used with ONE callable on both sides, each side with
+extras of its own.  Every
+user callback is a recording closure (it records its input AND the extra arguments it was called with).  Oracle: models/deferred.py, a recursive
 interpreter of the documented chaining rules, compared after EVERY operation
 (invocation log with inputs, called, pause count, current result or "waiting on
 d_j", callbacks not yet run) plus a model-free invariant: at quiescence a fired,
@@ -39,23 +44,32 @@ TECHNIQUE = ("deterministic simulation: seeded interleaving of add/pause/unpause
 QUICK_RUNS = 40000
 TWIN_P = 0.08   # this share of the runs drives two independent instances of the scenario one after the other (detsim.runner._run_scenario)
 BATCH = 500
+# extra arguments registered with callbacks (module-level knobs)
+EXTRAS_P = [0.0, 0.3, 0.6, 0.3]      # per run: share of the registration sides that carry extra arguments
+EXTRA_VALUES = ["a", "b"]            # small alphabet, so that the two sides of a pair often agree in part and differ in part
+EXTRA_KEYS = ("k", "side")
+NO_EXTRAS = ((), ())
 COMPONENTS = {"real": ["twisted.internet.defer.Deferred (addCallbacks/addCallback/addErrback/addBoth/callback/errback/pause/unpause/_runCallbacks)",
                        "twisted.python.failure.Failure"],
               "stub": ["order in which the program issues its operations (tape)"]}
 RULE = ("run = 4..25 tape-chosen operations over 2..6 Deferreds (add callback pair with drawn behaviour, pause, unpause, fire with "
         "value/failure); in 3 of 4 runs 15 % or 35 % of the callbacks first issue 1..2 operations of their own from inside "
         "(pause/unpause/fire/add on any Deferred of the pool, their own included); in 2 of 3 runs 30 % or 60 % of the raising "
-        "callbacks raise a BaseException that is not an Exception; "
+        "callbacks raise a BaseException that is not an Exception; in 3 of 4 runs 30 % or 60 % of the registration sides carry "
+        "extra positional/keyword arguments (all add* forms, four spellings of addCallbacks, also one callable on both sides "
+        "with different extras per side) which the invocation log records as part of the input; "
         "non-trivial = at least one callback returned a Deferred (take or wait) AND at least 3 user callbacks ran")
 ASSUMPTIONS = ["a callback never returns the Deferred it is attached to; callbacks added from inside a callback issue no operations themselves",
                "unpause (from outside or from inside a callback) is only issued to match an earlier pause by the program; fire only on a "
                "Deferred that has not fired",
+               "extra arguments are immutable strings and the program hands over a fresh dict per registration (what happens when the "
+               "caller later changes a mapping it passed is not asked)",
                "the BaseException raised by callbacks is a harness-defined class (never SystemExit/KeyboardInterrupt/GeneratorExit)",
                "no verdict once a Deferred's pause count was raised in the middle of one of its own processing passes while it is not "
                "waiting and has entries left (documentation silent, see module text): the run ends there",
-               "in half of the runs (config avoid_pause_while_waiting) the program never pauses a Deferred that is currently "
-               "waiting on another one (the precondition of the defect with signature C01:stalled-callbacks:outer-user-paused), "
-               "so that all other clauses are still checked on full-length runs"]
+               "in 15% of the runs (config avoid_pause_while_waiting) the program never pauses a Deferred that is currently "
+               "waiting on another one (the precondition of the genuine defect with signature C01:stalled-callbacks:outer-user-paused, "
+               "REPAIRED in /repo 3052277; kept for dev-time comparison with a tree without the repair); all other runs let it in"]
 
 
 def run(sim):
@@ -69,8 +83,10 @@ def run(sim):
     inner_p = sim.draw_choice([0.0, 0.15, 0.35, 0.15], "inner_ops_p")
     # share of the raising callbacks that raise a BaseException which is not an Exception
     base_p = sim.draw_choice([0.0, 0.3, 0.6], "raise_baseexception_p")
+    # share of the registrations that carry extra arguments for the callable (positional and keyword, per side of the pair)
+    extras_p = sim.draw_choice(EXTRAS_P, "extra_args_p")
     sim.config = {"ndeferreds": nd, "nops": nops, "avoid_pause_while_waiting": avoid, "w_returns_deferred": w_def, "w_pause": w_pause, "w_fire": w_fire,
-                  "inner_ops_p": inner_p, "raise_baseexception_p": base_p}
+                  "inner_ops_p": inner_p, "raise_baseexception_p": base_p, "extra_args_p": extras_p}
 
     names = ["d%d" % i for i in range(nd)]
     m = Interp(midpass_undetermined=True)
@@ -94,8 +110,13 @@ def run(sim):
         cid = st["cid"]
         kind = beh[0]
 
-        def f(res):
-            rlog.append((dname, cid, absres(res, None)))
+        def f(res, *args, **kw):
+            if args or kw:
+                # extra arguments handed to the call: part of its input
+                sim.probe("ran_with_extra_args_failure_input" if isinstance(res, Failure) else "ran_with_extra_args")
+                rlog.append((dname, cid, absres(res, None), (args, tuple(sorted(kw.items())))))
+            else:
+                rlog.append((dname, cid, absres(res, None)))
             for a in racts:
                 # the program's own operations, issued from inside this callback
                 act, tname = a[0], a[1]
@@ -118,12 +139,7 @@ def run(sim):
                             real[tname].errback(Boom(a[2][1]))
                 else:
                     sim.fault("inner_add" + where)
-                    if a[2] is None:
-                        real[tname].addErrback(a[3])
-                    elif a[3] is None:
-                        real[tname].addCallback(a[2])
-                    else:
-                        real[tname].addCallbacks(a[2], a[3])
+                    register(real[tname], a[2], a[3], a[4], a[5], a[6], a[7])
             if kind == "value":
                 return beh[1]
             if kind == "raise":
@@ -138,6 +154,63 @@ def run(sim):
             return real[beh[1]]
         f.cid = cid
         return f, ((cid, beh, acts) if acts else (cid, beh))
+
+    def draw_extras():
+        """Extra arguments registered with one side of a pair: (positional tuple, sorted keyword items); mostly none."""
+        if not (extras_p and sim.draw_bool(extras_p, "extra_args")):
+            return NO_EXTRAS
+        args = tuple(sim.draw_choice(EXTRA_VALUES, "extra_arg") for _ in range(sim.draw_int(0, 2, "n_extra_args")))
+        kw = []
+        for key in EXTRA_KEYS:
+            v = sim.draw_weighted([(None, 2)] + [(x, 1) for x in EXTRA_VALUES], "extra_kw")
+            if v is not None:
+                kw.append((key, v))
+        if args or kw:
+            sim.probe("extra_args_registered")
+        return (args, tuple(kw))
+
+    def draw_style(cbex, ebex):
+        """How the extras of addCallbacks are spelled (no draw when there are none)."""
+        if cbex == NO_EXTRAS and ebex == NO_EXTRAS:
+            return "plain"
+        return sim.draw_choice(["keyword", "positional", "sparse", "none-for-empty"], "pair_style")
+
+    def with_extras(spec, ex):
+        if spec is None or ex == NO_EXTRAS:
+            return spec
+        return (spec[0], spec[1], spec[2] if len(spec) > 2 else (), ex)
+
+    def register(d, form, f, g, cbex, ebex, style):
+        """One registration on the real Deferred, in the drawn spelling of the public API."""
+        if form == "callback":
+            d.addCallback(f, *cbex[0], **dict(cbex[1]))
+        elif form == "errback":
+            d.addErrback(g, *ebex[0], **dict(ebex[1]))
+        elif form == "both":
+            d.addBoth(f, *cbex[0], **dict(cbex[1]))
+        elif style == "plain":
+            d.addCallbacks(f, g)
+        elif style == "keyword":
+            d.addCallbacks(f, g, callbackArgs=cbex[0], callbackKeywords=dict(cbex[1]),
+                           errbackArgs=ebex[0], errbackKeywords=dict(ebex[1]))
+        elif style == "positional":
+            d.addCallbacks(f, g, cbex[0], dict(cbex[1]), ebex[0], dict(ebex[1]))
+        elif style == "sparse":
+            # only what is not empty is passed at all
+            given = {}
+            if cbex[0]:
+                given["callbackArgs"] = cbex[0]
+            if cbex[1]:
+                given["callbackKeywords"] = dict(cbex[1])
+            if ebex[0]:
+                given["errbackArgs"] = ebex[0]
+            if ebex[1]:
+                given["errbackKeywords"] = dict(ebex[1])
+            d.addCallbacks(f, g, **given)
+        else:
+            # the old default of these parameters, still accepted: None for "nothing"
+            sim.probe("extras_none_for_empty")
+            d.addCallbacks(f, g, cbex[0] or None, dict(cbex[1]) or None, ebex[0] or None, dict(ebex[1]) or None)
 
     def draw_actions(dname):
         if not (inner_p and sim.draw_bool(inner_p, "inner_ops")):
@@ -157,8 +230,16 @@ def run(sim):
             if act == "add":
                 form = sim.draw_weighted([("callback", 4), ("both", 3), ("errback", 2)], "inner_form")
                 f, spec = make(tname, draw_behaviour(tname))
-                acts.append((act, tname, None if form == "errback" else spec, None if form == "callback" else spec))
-                racts.append((act, tname, None if form == "errback" else f, None if form == "callback" else f))
+                # ("both" from inside = the same callable on both sides of addCallbacks, each side with extras of its own)
+                cbex = NO_EXTRAS if form == "errback" else draw_extras()
+                ebex = NO_EXTRAS if form == "callback" else draw_extras()
+                if form == "both":
+                    form = "pair"
+                    if cbex != ebex:
+                        sim.probe("same_callable_pair_sides_differ")
+                acts.append((act, tname, None if form == "errback" else with_extras(spec, cbex),
+                             None if form == "callback" else with_extras(spec, ebex)))
+                racts.append((act, tname, form, f, f, cbex, ebex, draw_style(cbex, ebex) if form == "pair" else "plain"))
             else:
                 acts.append((act, tname))
                 racts.append((act, tname))
@@ -187,30 +268,46 @@ def run(sim):
         dname = sim.draw_choice(cands, "on")
         nadded[dname] += 1
         d, md = real[dname], m.ds[dname]
-        form = sim.draw_weighted([("callback", 4), ("both", 3), ("errback", 2), ("pair", 2)], "form")
+        form = sim.draw_weighted([("callback", 4), ("both", 3), ("errback", 2), ("pair", 2), ("pair-same", 1 if extras_p else 0)], "form")
         if md.called:
             sim.probe("added_after_fire")
         if form == "callback":
             f, spec = draw_callback(dname)
+            ex = draw_extras()
+            spec = with_extras(spec, ex)
             sim.event("add", dname, "callback", spec)
             m.add(md, spec, None)
-            d.addCallback(f)
+            register(d, form, f, None, ex, NO_EXTRAS, "plain")
         elif form == "errback":
             f, spec = draw_callback(dname)
+            ex = draw_extras()
+            spec = with_extras(spec, ex)
             sim.event("add", dname, "errback", spec)
             m.add(md, None, spec)
-            d.addErrback(f)
+            register(d, form, None, f, NO_EXTRAS, ex, "plain")
         elif form == "both":
             f, spec = draw_callback(dname)
+            ex = draw_extras()
+            spec = with_extras(spec, ex)
             sim.event("add", dname, "both", spec)
             m.add(md, spec, spec)
-            d.addBoth(f)
+            register(d, form, f, f, ex, ex, "plain")
         else:
             f, spec = draw_callback(dname)
-            g, gspec = draw_callback(dname)
-            sim.event("add", dname, "pair", spec, gspec)
+            if form == "pair-same":
+                # one callable registered on both sides, each side with extra arguments of its own
+                sim.probe("same_callable_pair")
+                g, gspec = f, spec
+            else:
+                g, gspec = draw_callback(dname)
+            cbex, ebex = draw_extras(), draw_extras()
+            if g is f and cbex != ebex:
+                sim.probe("same_callable_pair_sides_differ")
+            spec, gspec = with_extras(spec, cbex), with_extras(gspec, ebex)
+            style = draw_style(cbex, ebex)
+            sim.event("add", dname, form, style, spec, gspec)
             m.add(md, spec, gspec)
-            d.addCallbacks(f, g)
+            register(d, "pair", f, g, cbex, ebex, style)
 
     def do_pause():
         cands = [n for n in names if user_paused[n] < 2 and not (avoid and m.ds[n].waiting_on is not None)]
@@ -307,10 +404,10 @@ def run(sim):
     sim.nontrivial = bool((sim.probes.get("take", 0) or sim.probes.get("wait", 0)) and len(rlog) >= 3)
 
 
-# Sensitivity (tools/mutate.py C01, all in src/twisted/internet/defer.py::_runCallbacks).  Because the unchanged tree
-# already violates C01:stalled-callbacks:outer-user-paused, every mutant was applied TOGETHER with the candidate repair
-# ("return" -> "chain.pop(); continue" in the `if current.paused:` branch; with the repair alone: 40000 quick runs x 4
-# base seeds and 431500 thorough runs, no violation), so that exit 1 is due to the mutant.
+# Sensitivity (tools/mutate.py C01, all in src/twisted/internet/defer.py::_runCallbacks).  Because the tree as first examined
+# already violated C01:stalled-callbacks:outer-user-paused (genuine defect, REPAIRED in /repo 3052277), every mutant was applied
+# TOGETHER with the repair ("return" -> "chain.pop(); continue" in the `if current.paused:` branch; with the repair alone: 40000
+# quick runs x 4 base seeds and 431500 thorough runs, no violation), so that exit 1 is due to the mutant.
 MUTANTS = [
     "hand-over does not clear the inner result (drop `current.result = None` after `chainee.result = current.result`): CAUGHT (invocations / state-result)",
     "paused fired Deferred treated as ready (drop `or currentResult.paused`): CAUGHT (invocations / state-result)",
@@ -328,5 +425,11 @@ MUTANTS = [
     "the own Deferred from inside a callback",
     "`self._runningCallbacks = True` instead of `current._runningCallbacks = True`: CAUGHT (invocations / stalled-callbacks)",
     "`_runningCallbacks` never reset: CAUGHT (stalled-callbacks)",
+    # round 6 (extra arguments per side of the pair)
+    "addCallbacks shares one call triple when callable and positional arguments of both sides agree, ignoring the keywords (seeded): "
+    "CAUGHT (invocations) - needs one callable on both sides of addCallbacks, different errbackKeywords, and a failure reaching the pair",
+    "addCallbacks stores errbackArgs on the success side (`(callback, errbackArgs, callbackKeywords)`): CAUGHT (invocations)",
+    "addBoth drops the keywords (`call = (callback, args, {})`): CAUGHT (invocations)",
+    "_runCallbacks calls without the keywords (`callback(current.result, *args)`): CAUGHT (invocations)",
     "unpause tests `self.paused > 0` instead of truthiness: survives (equivalent: the count is never negative for matched pause/unpause)",
 ]
